@@ -48,10 +48,11 @@ SlotsAgree(c, t, run) ==
       /\ q[1] = 0 \/ s[3] = q[4]
       /\ q[1] # 15 \/ s[4] = q[2]
       /\ q[1] # 1 \/ s[4] = q[3]
-\* the pass whose result the encoder kept: index into EncPasses, 0 if none fits
+\* the passes whose result equals what the encoder kept (both when they coincide)
+FitSet(c, passes, runs) ==
+  {t \in 1..Len(passes) : runs[t].dom /\ EqOn(runs[t].old, c.out, EncF(c, 0), c.C) /\ EqOn(runs[t].err, c.eo, EncF(c, 0), c.C)}
 KeptPass(c, passes, runs) ==
-  LET fits == {t \in 1..Len(passes) : runs[t].dom /\ EqOn(runs[t].old, c.out, EncF(c, 0), c.C) /\ EqOn(runs[t].err, c.eo, EncF(c, 0), c.C)}
-  IN IF fits = {} THEN 0 ELSE IF Len(passes) \in fits /\ Len(c.fl) > 0 /\ FALSE THEN Len(passes) ELSE CHOOSE t \in fits : \A u \in fits : t <= u
+  LET fits == FitSet(c, passes, runs) IN IF fits = {} THEN 0 ELSE CHOOSE t \in fits : \A u \in fits : t <= u
 EncCoarseNames(c) ==
   IF ~EncShapeOK(c) THEN {"quant_coarse_energy call outside the model's domain"}
   ELSE LET f == EncF(c, 0)
@@ -70,16 +71,14 @@ EncCoarseNames(c) ==
                         ELSE IF c.dI1 = DelayedIntraNext(f, passes[kept], NewDistortion(f, c.eb, c.in)) \/ (Len(passes) = 2 /\ runs[1].old = runs[2].old
                                      /\ c.dI1 = DelayedIntraNext(f, passes[3 - kept], NewDistortion(f, c.eb, c.in)))
                              THEN {} ELSE {"delayedIntra"})
-\* the deviation predicates of the pass the encoder kept
+\* the candidates for the pass the encoder kept, with their deviation predicates
 EncKept(c) ==
-  IF ~EncShapeOK(c) THEN [ok |-> FALSE]
+  IF ~EncShapeOK(c) THEN {}
   ELSE LET f == EncF(c, 0)  passes == EncPasses(f)  n == NSlots(c) IN
-       IF Len(c.sl) # n * Len(passes) THEN [ok |-> FALSE]
+       IF Len(c.sl) # n * Len(passes) THEN {}
        ELSE LET runs == [t \in 1..Len(passes) |-> PassRun(c, t, passes[t])]
-                kept == KeptPass(c, passes, runs)
-            IN IF kept = 0 THEN [ok |-> FALSE]
-               ELSE [ok |-> TRUE, intra |-> passes[kept], onebit |-> runs[kept].onebit, hi |-> runs[kept].hi, t |-> kept,
-                     syms |-> [k \in 1..n |-> <<c.sl[(kept - 1) * n + k][1], c.sl[(kept - 1) * n + k][3]>>], flagged |-> Len(c.fl) > 0]
+            IN {[intra |-> passes[t], onebit |-> runs[t].onebit, hi |-> runs[t].hi, t |-> t,
+                 syms |-> [k \in 1..n |-> <<c.sl[(t - 1) * n + k][1], c.sl[(t - 1) * n + k][3]>>], flagged |-> Len(c.fl) > 0] : t \in FitSet(c, passes, runs)}
 
 FineShapeOK(c) == /\ c.C \in 1..2 /\ c.start >= 0 /\ c.start < c.end /\ c.end <= NB
                   /\ \A i \in 1..NB : c.fq[i] >= 0 /\ c.fq[i] <= MaxFineBits
@@ -182,8 +181,8 @@ DecCallsOK(e) == HasCall(e.uc) /\ HasCall(e.uf) /\ HasCall(e.uz)
 Usable(e) == EncCallsOK(e) /\ DecCallsOK(e) /\ e.er >= 0 /\ e.dr >= 0 /\ e.eerr = 0
 EnergiesAgree(e) == EqOn(e.uz.out, e.qz.out, FF(e.qz), e.qz.C)
 RangesAgree(e) == e.eh = e.dh /\ e.el = e.dl
-SymbolsAgree(e, k) == k.ok /\ DecShapeOK(e.uc) /\ DecSyms(e.uc) = k.syms /\ (~k.flagged \/ e.uc.intra = k.intra)
-Deviation(k) == k.ok /\ (k.onebit \/ k.hi)
+SymbolsAgree(e, k) == DecShapeOK(e.uc) /\ DecSyms(e.uc) = k.syms /\ (~k.flagged \/ e.uc.intra = k.intra)
+Deviation(ks) == \E k \in ks : k.onebit \/ k.hi
 
 PktPropNames(e) ==
   IF ~Usable(e) THEN {}
@@ -198,7 +197,7 @@ PktModelNames(e) ==
   \cup (IF ~Usable(e) THEN {}
         ELSE LET k == EncKept(e.qc) IN
              (IF EnergiesAgree(e) \/ Deviation(k) THEN {} ELSE {"mirror: decoder energies differ from the encoder's outside OneBitTierDeviation / UpperClampDeviation"})
-             \cup (IF ~k.ok \/ SymbolsAgree(e, k) THEN {} ELSE {"mirror: decoded coarse symbols / tells / intra flag differ from the coded ones"})
+             \cup (IF k = {} \/ (\E kk \in k : SymbolsAgree(e, kk)) THEN {} ELSE {"mirror: decoded coarse symbols / tells / intra flag differ from the coded ones"})
              \cup (IF e.uf.bits = e.qf.bits /\ e.uz.bits = e.qz.bits THEN {} ELSE {"mirror: fine / final bits read differ from the bits written"}))
 
 DecBPropNames(e) == {}
@@ -229,9 +228,9 @@ Explain ==
 Census ==
   LET e == Tr[l] IN
   IF e.k # "pkt" \/ ~HasCall(e.qc) THEN TRUE
-  ELSE LET k == EncKept(e.qc) IN
-       IF k.ok /\ (k.onebit \/ k.hi) /\ Usable(e)
-       THEN PrintT("DEV " \o ToString(l) \o (IF k.onebit THEN " onebit" ELSE "") \o (IF k.hi THEN " hi" ELSE "") \o (IF EnergiesAgree(e) THEN " same" ELSE " differ"))
+  ELSE LET ks == EncKept(e.qc) IN
+       IF Deviation(ks) /\ Usable(e)
+       THEN PrintT("DEV " \o ToString(l) \o (IF \E k \in ks : k.onebit THEN " onebit" ELSE "") \o (IF \E k \in ks : k.hi THEN " hi" ELSE "") \o (IF EnergiesAgree(e) THEN " same" ELSE " differ"))
        ELSE TRUE
 
 Init == l \in 1..Len(Tr)
